@@ -135,15 +135,15 @@ Definition m_start_selecting (e : med) := ed_start_selecting md_ops std_ops e.
 Definition m_commit (conv : conv_fn) (e : med) := ed_commit md_ops conv e.
 Definition m_clear (e : med) := ed_clear std_ops e.
 Definition m_ack (e : med) := ed_ack e.
-Definition m_set_options (e : med) (o : options) := ed_set_options std_ops e o.
+Definition m_set_options (e : med) (o : options) := ed_set_options_c md_ops std_ops e o.
 Definition m_set_engine (e : med) (k : engine_kind) := ed_set_engine e k.
 Definition m_clear_syl (e : med) := ed_clear_syllable_editor std_ops e.
 Definition m_jump_next (e : med) := ed_jump_next md_ops e.
 Definition m_jump_prev (e : med) := ed_jump_prev md_ops e.
 Definition m_jump_first (e : med) := ed_jump_first md_ops e.
 Definition m_jump_last (e : med) := ed_jump_last md_ops e.
-Definition m_learn (e : med) (k t : list N) := ed_learn md_ops e k t.
-Definition m_unlearn (e : med) (k t : list N) := ed_unlearn md_ops e k t.
+Definition m_learn (e : med) (k t : list N) := ed_learn_c md_ops std_ops e k t.
+Definition m_unlearn (e : med) (k t : list N) := ed_unlearn_c md_ops std_ops e k t.
 Definition m_candidates (e : med) := ed_all_candidates md_ops std_ops e.
 Definition m_total_page (e : med) := ed_total_page md_ops std_ops e.
 
